@@ -152,7 +152,8 @@ impl <T: ArrayElement> ArraySplit<T> for Array<T> {
         if self.is_empty()? { return Ok(vec![self.clone()]) }
 
         let axis = axis.unwrap_or(0);
-        let n_total = self.len()?;
+        let n_total = self.shape[axis];
+        let stride = self.len()? / n_total;
 
         let (sections, extras) = (n_total / parts, n_total % parts);
         let section_sizes = std::iter::repeat(sections + 1)
@@ -171,15 +172,15 @@ impl <T: ArrayElement> ArraySplit<T> for Array<T> {
         arr.clone().map_or_else(|_| Err(arr.err().unwrap()), |arr| {
             let result = div_points
                 .windows(2)
-                .map(|w| arr.clone().into_iter()
-                    .skip(w[0]).take(w[1] - w[0])
-                    .collect::<Self>())
-                .map(|m| {
+                .map(|w| (w[1] - w[0], arr.clone().into_iter()
+                    .skip(w[0] * stride).take((w[1] - w[0]) * stride)
+                    .collect::<Self>()))
+                .map(|(section, m)| {
                     if self.ndim()? == 1 { Ok(m) }
                     else {
-                        let mut new_shape = self.get_shape()?;
-                        new_shape[axis] /= parts;
-                        m.reshape(&new_shape)
+                        let mut new_shape = arr.get_shape()?;
+                        new_shape[0] = section;
+                        m.reshape(&new_shape).moveaxis(vec![0], vec![axis.to_isize()])
                     }
                 })
                 .collect::<Vec<Result<Self, _>>>();
